@@ -79,9 +79,10 @@ func race(site string, reqs []func() Resp) ([]Resp, bool) {
 }
 
 type c11Sess struct {
-	c    *Ctx
-	r    *Rng
-	root string
+	c      *Ctx
+	r      *Rng
+	root   string
+	wedged bool
 }
 
 func (s *c11Sess) report(site, what, detail string, met bool) {
@@ -324,7 +325,9 @@ func (s *c11Sess) merges(n int) {
 	}
 }
 
-func settleName(uuid, name string) { datastore.BlockOnUpdating(dvid.UUID(uuid), dvid.InstanceName(name)) }
+func settleName(uuid, name string) {
+	datastore.BlockOnUpdating(dvid.UUID(uuid), dvid.InstanceName(name))
+}
 
 // bodyOps: supervoxel splits and a cleave of one body, concurrently
 func (s *c11Sess) bodyOps() {
@@ -435,9 +438,9 @@ func (s *c11Sess) newVersions(n int) {
 	var ri struct {
 		DAG struct {
 			Nodes map[string]struct {
-				Branch   string
-				Parents  []int
-				Children []int
+				Branch    string
+				Parents   []int
+				Children  []int
 				VersionID int
 			}
 		}
@@ -509,6 +512,45 @@ func (s *c11Sess) sameBranchName(n int) {
 	if okc != 1 || carry != 1 {
 		s.report("datastore.newVersion branch-name", "concurrent branch requests for one new branch name on different parents: more than one was acknowledged, or several nodes carry the name (no sequential order allows that)",
 			fmt.Sprintf("%d concurrent POST branch {branch: shared} on %d committed parents of one repo: %v\nacknowledged: %d, nodes carrying the branch name: %d", n, n, rs, okc, carry), met)
+	}
+}
+
+// saveVsNewInstance: a request that saves the repo metadata (a node note) is held inside repoT.saveToStore, where it
+// holds the repo's read lock, while a request that needs the repo's write lock (a new data instance) arrives.
+// Both are acknowledged in either sequential order, so both must return; a request that never returns is a wedge.
+func (s *c11Sess) saveVsNewInstance() {
+	root := NewRepo()
+	b := newBarrier("datastore.saveToStore", 2)
+	b.timeout = 300 * time.Millisecond
+	dvid.VerifYieldFunc = b.yield
+	done := make(chan [2]Resp, 1)
+	name := fmt.Sprintf("kvs%d", s.r.Intn(1<<30))
+	go func() {
+		var r1, r2 Resp
+		var wg sync.WaitGroup
+		wg.Add(2)
+		go func() { defer wg.Done(); r1 = PostJSON("node/"+root+"/note", map[string]string{"note": "a note"}) }()
+		go func() {
+			defer wg.Done()
+			time.Sleep(60 * time.Millisecond) // arrive while the first request is parked inside saveToStore
+			r2 = PostJSON("repo/"+root+"/instance", map[string]string{"typename": "keyvalue", "dataname": name})
+		}()
+		wg.Wait()
+		done <- [2]Resp{r1, r2}
+	}()
+	s.c.Eval("save vs new-instance", true)
+	s.c.Count("save||new-instance")
+	select {
+	case rs := <-done:
+		dvid.VerifYieldFunc = nil
+		if !rs[0].OK() || !rs[1].OK() {
+			s.report("datastore.saveToStore||newData", "a note and a new data instance requested concurrently are not both acknowledged", fmt.Sprintf("POST note -> %s ; POST instance -> %s", rs[0], rs[1]), b.met)
+		}
+	case <-time.After(15 * time.Second):
+		dvid.VerifYieldFunc = nil
+		s.c.Report("O", "C11 wedged datastore.saveToStore||newData", "two well-formed concurrent requests on one repo never return: the repo is wedged",
+			"POST node/<root>/note (held inside repoT.saveToStore, which holds the repo's read lock) and, 60 ms later, POST repo/<root>/instance (needs the repo's write lock): neither request returned within 15 s.\nsaveToStore keeps its read lock while gob-encoding the repo, and repoT.GobEncode takes the same read lock again; with a writer queued in between, the second read lock waits for the writer and the writer for the first read lock.")
+		s.wedged = true
 	}
 }
 
@@ -600,6 +642,12 @@ func runC11(c *Ctx) {
 		s.bodyOps()
 		s.newVersions(n)
 		s.sameBranchName(n)
+		if !s.wedged {
+			s.saveVsNewInstance()
+		}
+		if s.wedged {
+			return // the process-wide manager is stuck: nothing after this can be trusted
+		}
 		s.neuronjson(n)
 		s.keyvalue(4 + n)
 	}
